@@ -152,6 +152,9 @@ def main(argv):
                "distinct by SHA-1 of header text + values")
     ck.assumptions = ["operand values stay far from int overflow", "steps are positive at run time (else the sequential loop does not terminate)",
                       "comparison and update direction agree (else: finding F70)"]
+    ck.trusted += ["harness/emu_launch.hpp (device scheduler emulation: for each work-group, for each work-item; index types of the real backends)",
+                   "g++ 12 as the reference semantics of the emitted C++ text and of the native sequential loop",
+                   "the C expression grammar of OccaProofs/Lemmas/ExprGrammar.lean is unambiguous (not proved)"]
     ck.translate(["gen_loops"])
     ck.prove("C17")
     hb = ck.harness("h_loops")
